@@ -791,8 +791,15 @@ delete_return_value(ostream &out, int indent_level,
     output_unref(out, indent_level, remap, return_expr);
 
   } else if (remap->_return_value_needs_management) {
-    // We should just delete it directly.
-    indent(out, indent_level) << "delete " << return_expr << ";\n";
+    // We should just delete it directly, if its destructor is accessible.
+    CPPType *type = TypeManager::resolve_type(remap->_return_type->get_new_type(), remap->_cppscope);
+    CPPStructType *struct_type = TypeManager::unwrap(type)->as_struct_type();
+    if (struct_type != nullptr && !struct_type->is_destructible()) {
+      indent(out, indent_level)
+        << "// cannot delete " << return_expr << ": inaccessible destructor\n";
+    } else {
+      indent(out, indent_level) << "delete " << return_expr << ";\n";
+    }
   }
 }
 
